@@ -78,8 +78,134 @@ def run_case(case):
     return out
 
 
+# ---------------------------------------------------------------- C13: error reports
+import re as _re
+
+
+def parse_message(msg):
+    stage = "params" if "whilst checking the parameters of" in msg else "return" if "whilst checking the return value" in msg else "?"
+    m = _re.search(r"typechecking parameter '([^']*)'", msg)
+    blamed = m.group(1) if m else None
+    m = _re.search(r"(?:parameters|return value) of ([\w.<>]+?)\.?\n", msg)
+    fn = m.group(1) if m else None
+    axes, structs = parse_bindings(msg)
+    return {"stage": stage, "blamed": blamed, "fn": fn, "axes": axes, "structs": structs}
+
+
+def parse_bindings(text):
+    axes, structs, mode = [], [], None
+    for ln in text.split("\n"):
+        if ln.startswith("The current values for each jaxtyping axis annotation"):
+            mode = "axis"; continue
+        if ln.startswith("The current values for each jaxtyping PyTree structure annotation"):
+            mode = "tree"; continue
+        if mode == "axis" and "=" in ln:
+            axes.append(ln.replace(" ", "").replace(",)", ")"))
+        elif mode == "tree" and "=" in ln:
+            structs.append(ln)
+    return axes, structs
+
+
+def make_annotation(p):
+    import numpy as np, jaxtyping, typing
+    if "union" in p:
+        return typing.Union[tuple(getattr(jaxtyping, p["cat"])[np.ndarray, d] for d in p["union"])]
+    return getattr(jaxtyping, p["cat"])[np.ndarray, p["dim"]]
+
+
+def check_value(val, p):
+    import numpy as np, jaxtyping
+    dims = p["union"] if "union" in p else [p["dim"]]
+    return any(isinstance(val, getattr(jaxtyping, p["cat"])[np.ndarray, d]) for d in dims)
+
+
+def run_error_case(case):
+    import numpy as np
+    import jaxtyping
+    from jaxtyping import jaxtyped, config, AnnotationError, TypeCheckError
+    from jaxtyping import _decorator, _storage
+    out = []
+    vals = {n: np.zeros(tuple(case["shapes"][n]), dtype=case.get("dtypes", {}).get(n, "float32")) for n in case["shapes"]}
+    order = [p["name"] for p in case["params"]]
+    by = {p["name"]: p for p in case["params"]}
+    ints = case.get("ints", {})
+    vals.update(ints)
+    for var in case["variants"]:
+        live = []
+        orig = _storage.shape_str
+
+        def spy(memos):
+            live.append(orig(_storage.get_shape_memo()))
+            return orig(memos)
+
+        _decorator.shape_str = spy
+        config.update("jaxtyping_remove_typechecker_stack", bool(var.get("remove_stack")))
+        try:
+            ann = {n: make_annotation(by[n]) for n in order}
+            ret = case.get("ret")
+            retv = np.zeros(tuple(case["ret_shape"]), dtype=case.get("ret_dtype", "float32")) if ret else None
+            src = "def fname(%s):\n    return RET\n" % ", ".join(list(ints) + order)
+            g = {"RET": retv}
+            exec(src, g)
+            f = g["fname"]
+            f.__annotations__ = dict(ann)
+            f.__annotations__.update({k: int for k in ints})
+            if ret:
+                f.__annotations__["return"] = make_annotation(ret)
+            fn = jaxtyped(typechecker=get_checker(var["checker"]))(f)
+            r = {"outcome": "ok"}
+            try:
+                fn(*[vals[n] for n in list(ints) + order])
+            except AnnotationError as e:
+                r = {"outcome": "raise:AnnotationError", "is_typeerror": isinstance(e, TypeError)}
+            except TypeCheckError as e:
+                r = {"outcome": "TypeCheckError", "is_typeerror": isinstance(e, TypeError), "has_cause": e.__cause__ is not None,
+                     "suppress": bool(e.__suppress_context__)}
+                r.update(parse_message(str(e)))
+                la, ls = parse_bindings(live[-1] if live else "")
+                r["live"], r["live_structs"] = la, ls
+                # oracle: the blamed parameter fails after its predecessors pass, in a fresh context
+                if r["blamed"] is not None and r["blamed"] in by:
+                    with jaxtyped("context"):
+                        _storage.get_shape_memo()[3].update(vals)
+                        okpre = True
+                        for n in order:
+                            if n == r["blamed"]:
+                                break
+                            try:
+                                okpre = okpre and check_value(vals[n], by[n])
+                            except Exception:
+                                okpre = False
+                        try:
+                            bad = not check_value(vals[r["blamed"]], by[r["blamed"]])
+                        except Exception:
+                            bad = True
+                    r["blame_pre_pass"], r["blame_fails"] = bool(okpre), bool(bad)
+            except BaseException as e:  # noqa
+                r = {"outcome": "other:" + type(e).__name__, "msg": str(e)[:300]}
+            out.append(r)
+        finally:
+            _decorator.shape_str = orig
+            config.update("jaxtyping_remove_typechecker_stack", False)
+    return out
+
+
 def main():
     req = json.load(sys.stdin)
+    if req.get("mode") == "errors":
+        buf = io.StringIO()
+        with contextlib.redirect_stdout(buf), warnings.catch_warnings():
+            warnings.simplefilter("ignore")
+            res = [run_error_case(c) for c in req["cases"]]
+            import jaxtyping
+            from jaxtyping import _array_types as at
+            cats = sorted({p["cat"] for c in req["cases"] for p in c["params"]} | {c["ret"]["cat"] for c in req["cases"] if c.get("ret")})
+            cd = {}
+            for c in cats:
+                d = getattr(jaxtyping, c).dtypes
+                cd[c] = None if d is at._any_dtype else list(d)
+        print(json.dumps({"results": res, "cat_dtypes": cd}))
+        return
     buf = io.StringIO()
     with contextlib.redirect_stdout(buf), warnings.catch_warnings():
         warnings.simplefilter("ignore")
